@@ -16,6 +16,7 @@ SBX(p, q) == [k |-> p.k ^^ q.k, a |-> (p.a \ q.a) \cup (q.a \ p.a)]
 SBBit(b, j) == IF b.a = {} THEN SBC(IF (b.k \div (2 ^ j)) % 2 = 1 THEN 128 ELSE 0)
                ELSE [k |-> 0, a |-> {<<"bit", b, j>>}]
 SBBase(base, i) == [k |-> 0, a |-> {<<"s", base, i>>}]
+SBHas(b, base, i) == <<"s", base, i>> \in b.a
 SZ40 == [i \in 1..40 |-> SBC(0)]
 \* A state whose 40 explicit bytes are "byte i of the term B" (XOR something) is the state
 \* [base = B, d = something]: fold it back, so that saving a state as bytes and loading it
@@ -26,12 +27,12 @@ FoldState(S) ==
   IF c = {} THEN S ELSE
   LET B == (CHOOSE x \in c : TRUE)[2] IN
   IF \A i \in 1..40 : <<"s", B, i>> \in S.d[i].a
-  THEN [base |-> B, d |-> SubSeq([i \in 1..40 |-> [k |-> S.d[i].k, a |-> S.d[i].a \ {<<"s", B, i>>}]], 1, 40)]
+  THEN [base |-> B, d |-> SubSeq([i \in 1..40 |-> [k |-> S.d[i].k, a |-> S.d[i].a \ {<<"s", B, i>>}]], 1, 40), z |-> {}]
   ELSE S
-SPermOp(S, first) == [base |-> <<"P", first, FoldState(S)>>, d |-> SubSeq(SZ40, 1, 40)]
+SPermOp(S, first) == [base |-> <<"P", first, FoldState(S)>>, d |-> SubSeq(SZ40, 1, 40), z |-> {}]
 
 \* free re-keying function for ISAP models (see ApiIsap.RekeyOp)
-SRekeyOp(par, S0, Y) == [base |-> <<"RK", FoldState(S0), Y>>, d |-> SubSeq(SZ40, 1, 40)]
+SRekeyOp(par, S0, Y) == [base |-> <<"RK", FoldState(S0), Y>>, d |-> SubSeq(SZ40, 1, 40), z |-> {}]
 
 \* n input symbols of a stream, positions from+1 .. from+n
 Syms(stream, from, n) == SubSeq([i \in 1..(from + n) |-> [k |-> 0, a |-> {<<"i", stream, i>>}]], from + 1, from + n)
